@@ -29,6 +29,8 @@ def configure(cfg):
         _xsi_schema(CFG["version"])
     if cfg.get("arith"):
         _arith_schema(CFG["version"])
+    if cfg.get("ew"):
+        _ew_schema(CFG["version"])
 
 
 def _profile(ops):
@@ -95,8 +97,11 @@ def _make_stub(ops, ns):
 
 def h_limits(ops: List[bool], ns: List[bool], dlim: int, elim: int) -> bool:
     ok, maxd, count = _profile(ops)
-    old = _limits.MAX_XML_DEPTH, _limits.MAX_XML_ELEMENTS
-    _limits.MAX_XML_DEPTH, _limits.MAX_XML_ELEMENTS = dlim, elim
+    # the limits are set the documented way, through the attributes of the public module xmlschema.limits
+    from xmlschema import limits as public_limits
+    old = public_limits.MAX_XML_DEPTH, public_limits.MAX_XML_ELEMENTS
+    public_limits.MAX_XML_DEPTH = dlim
+    public_limits.MAX_XML_ELEMENTS = elim
     try:
         try:
             if CFG["lazy"]:
@@ -112,7 +117,7 @@ def h_limits(ops: List[bool], ns: List[bool], dlim: int, elim: int) -> bool:
             raised = True
             want = (maxd > dlim) if CFG["lazy"] else (maxd > dlim or count > elim)
     finally:
-        _limits.MAX_XML_DEPTH, _limits.MAX_XML_ELEMENTS = old
+        public_limits.MAX_XML_DEPTH, public_limits.MAX_XML_ELEMENTS = old
     return raised == want
 
 
@@ -184,6 +189,10 @@ def obligations(tier, seed):
                             "config": {"version": version, "xsi": True, "fixed_w": w}, "timeout": 300 if quick else 1500, "twin_timeout": 30,
                             "bound": "xsi:type from %r%s%s on element %s" % (XSI_TYPES, " x xsi:nil from %r" % (XSI_NILS,) if "n" in grp else "",
                                                                             " x stray %r" % (XSI_STRAY,) if "s" in grp else "", XSI_WHERE[w])})
+    for version in ("1.0", "1.1"):
+        out.append({"name": "empty-wildcard/%s" % version, "fn": "h_empty_wildcard", "pre": "pre_ew", "args": [["c", "int"]],
+                    "config": {"version": version, "ew": True}, "timeout": 200, "twin_timeout": 30,
+                    "bound": "children %r under a model with a required strict wildcard that admits no positive namespace" % (EW_KIDS,)})
     out.append({"name": "arith/1.0", "fn": "h_arith", "pre": "pre_arith", "args": [["k", "int"], ["p", "int"], ["y", "int"]],
                 "config": {"version": "1.0", "arith": True}, "timeout": 300, "twin_timeout": 30,
                 "bound": "identity fields of type date / duration / gYear with values from %r, %r, %r" % (A_DATES, A_DURS, A_YEARS)})
@@ -477,6 +486,48 @@ def h_arith(**kw) -> bool:
     if "m" in kw:
         e = ET.SubElement(root, 'e', {"m": A_INTS[pick(kw["m"], 4)], "d": A_INTS[pick(kw["d"], 4)], "y": A_YEARS[pick(kw["y"], 4)]})
         e.text = 'v'
+    try:
+        list(schema.iter_errors(root))
+        schema.is_valid(root)
+        schema.decode(root, validation='lax')
+        schema.decode(root, validation='skip')
+    except Exception:
+        return False
+    try:
+        schema.decode(root)
+    except XMLSchemaException:
+        pass
+    return True
+
+
+# ---------------------------------------------------------------- content-model errors next to a wildcard that admits nothing
+_EW_XSD = """<xs:schema xmlns:xs="http://www.w3.org/2001/XMLSchema"><xs:element name="root"><xs:complexType><xs:sequence>
+ <xs:element name="a" minOccurs="0"/><xs:any %s processContents="strict"/><xs:element name="b" minOccurs="0"/>
+ </xs:sequence></xs:complexType></xs:element></xs:schema>"""
+EW_KIDS = [[], ['a'], ['zz'], ['a', 'b'], ['{urn:x}q'], ['b']]
+_EW = {}
+
+
+def _ew_schema(version):
+    if version not in _EW:
+        cls = xmlschema.XMLSchema10 if version == '1.0' else xmlschema.XMLSchema11
+        # XSD 1.0: an empty namespace list; XSD 1.1: a wildcard constrained only by notNamespace (empty positive set)
+        _EW[version] = cls(_EW_XSD % ('namespace=""' if version == '1.0' else 'notNamespace="urn:x ##local"'))
+    return _EW[version]
+
+
+def pre_ew(fn, c):
+    return 0 <= c < len(EW_KIDS)
+
+
+def h_empty_wildcard(c: int) -> bool:
+    """a required strict wildcard with an empty positive namespace set among the expected particles of a content-model
+    error: lax validation and decoding return, strict raises only the library's exceptions"""
+    from engine.sym import pick
+    schema = _ew_schema(CFG["version"])
+    root = ET.Element('root')
+    for t in EW_KIDS[pick(c, len(EW_KIDS))]:
+        ET.SubElement(root, t)
     try:
         list(schema.iter_errors(root))
         schema.is_valid(root)
